@@ -346,8 +346,26 @@ def add_kernel_symmetry(ctx, eng: SiblingEngine, rule: str = 'R09.8', classes: O
         if not fam.wrapper.cls or (classes is not None and fam.wrapper.cls not in classes):
             continue
         # precondition asserted by the wrapper: same first and last breakpoint
-        asserts = [ast.unparse(n.test).replace(' ', '') for n in ast.walk(fam.wrapper.node) if isinstance(n, ast.Assert)]
-        pre_ok = any('self.x[0]==' in a for a in asserts) and any('self.x[-1]==' in a for a in asserts)
+        # (by canonical form: `x[-1]` and `x[len(x)-1]` are the same element, either operand may come first)
+        want_first, want_last = set(), set()
+        other = fam.wrapper.node.args.args[1].arg if len(fam.wrapper.node.args.args) > 1 else 'f'
+        sx, fx = C.atom(('attr', ('n', 'self'), 'x')), C.atom(('attr', ('n', other), 'x'))
+
+        def elem(arr, last):
+            a_ = C.single_atom(arr)
+            idx = C.sub(C.atom(('call', 'len', (arr,))), C.ONE) if last else C.ZERO
+            return C.atom(('sub', a_, idx))
+        want_first = {C.mk_cmp('eq', elem(sx, False), elem(fx, False))}
+        want_last = {C.mk_cmp('eq', elem(sx, True), elem(fx, True))}
+        got = set()
+        for n in ast.walk(fam.wrapper.node):
+            if isinstance(n, ast.Assert):
+                try:
+                    c_ = C.canon_cond(n.test, C.Env())
+                except C.CanonError:
+                    continue
+                got |= set(c_[1]) if c_[0] == 'and' else {c_}
+        pre_ok = bool(got & want_first) and bool(got & want_last)
         t0 = f"{fam.wrapper.name}: asserts that both operands start and end at the same breakpoint (premise of the operand symmetry)"
         obs.append(ok(rule, t0, fam.wrapper.loc(), construct=f"{_fn(fam.wrapper)}::same-interval") if pre_ok else
                    violation(rule, t0, fam.wrapper.loc(), key=f"{_fn(fam.wrapper)}::same-interval-assert"))
